@@ -96,7 +96,7 @@ func genExpr(t *rapid.T, cfg *genCfg, depth int, min int) *ref.Node {
 			n = genLeaf(t, cfg)
 		} else {
 			lhs := sub(2)
-			if len(cfg.Targets) > 0 {
+			if len(cfg.Targets) > 0 && (cfg.CalleePathOnly || rapid.IntRange(0, 3).Draw(t, "usetarget") > 0) {
 				lhs = &ref.Node{Kind: "id", Val: rapid.SampledFrom(cfg.Targets).Draw(t, "target")}
 			}
 			n = &ref.Node{Kind: "bin", Op: "=", Kids: []*ref.Node{lhs, sub(ref.LvAssign)}}
